@@ -8,3 +8,13 @@ reg("C12", "model_checking", "explicit-state BFS of the real simulated FIFO x qu
     "bounded-response liveness rules are evaluated on every transition; shortest paths are replayed from reset on fresh simulators.",
     "Trusted: the Python simulator as execution vehicle (cross-checked against RTLIL by C04), the 30-line queue model. Bounds: depth<=5 "
     "(<=12 thorough), width<=2.")
+reg("C01", "exploration", "bounded-exhaustive enumeration of expression terms x all operand values against an integer reference semantics",
+    "Every expression term up to the stated depth/width bounds (all operator forms, derived operators through the public API) is compiled into a "
+    "real simulated comb circuit and evaluated under ALL valuations of its leaves; value, reported shape and representability are compared with "
+    "a reference transcribed from the language guide and the operator docstrings. The space is enumerated completely.",
+    "Trusted: vf/ref/expr.py (reference semantics, ~250 lines). Bounds: depth 1 width<=3 (4 thorough), depth 2 width<=2 (3 partially), depth-3 chains through reinterpreting forms.")
+reg("C05", "exploration", "bounded-exhaustive enumeration of read terms and assignable target terms x all states x all written values, three-way differential",
+    "Every assignable target of nesting depth<=2 (3 thorough) is written with ctx.set from every state of the underlying signals with every value, and "
+    "compared bit-for-bit with (a) a per-bit address-map reference and (b) the same assignment compiled into a sync circuit; every read term is "
+    "evaluated with ctx.get and compared with the circuit value and the reference.",
+    "Trusted: vf/ref/expr.py + vf/ref/stmt.py bit-map semantics. Underlying signals are 3+2 bits wide; memory rows 2x3 bits.")
